@@ -47,6 +47,7 @@ ASSUMPTIONS = [
 REQUIRED = ["op_get_subtree", "op_node_subtree", "op_to_subtree", "op_cut_enter", "op_cut_leave",
             "op_cut_type", "op_cut_order", "op_cut_tip", "op_neurites", "op_dendrites",
             "neurites_consumed_with_extractions_in_between", "op_to_sub_tree_older_name",
+            "operations_under_custom_column_names",
             "transform_instance_reused", "numpy_scalar_node_ids", "removals_as_iterator_or_set",
             "mappings_checked", "mapping_container_reused", "transform_reused_after_aborted_call",
             "zero_length_tip_branches_at_threshold_zero", "trees_derived_by_the_library_from_a_used_tree", "tip_exact_threshold_cases", "exhaustive_subsets",
@@ -507,6 +508,27 @@ OPS = {
 }
 
 
+def _plain_op(case):
+    """The case's operation as a plain call (no monitors), for the custom-names comparison."""
+    from swcgeom import transforms as T_
+    from swcgeom.core import get_subtree, to_subtree
+
+    op = case["op"]
+    if op == "get_subtree":
+        return lambda t: get_subtree(t, case["node"])
+    if op == "node_subtree":
+        return lambda t: t.node(case["node"]).subtree()
+    if op == "to_subtree" and not case.get("older"):
+        return lambda t: to_subtree(t, list(case["removals"]))
+    if op == "cut_type":
+        return lambda t: T_.CutByType(case["type"])(t)
+    if op == "cut_order":
+        return lambda t: T_.CutByFurcationOrder(case["order"])(t)
+    if op == "cut_tip":
+        return lambda t: T_.CutShortTipBranch(case["thre"])(t)
+    return None
+
+
 def execute(ctx, case):
     spec = G.spec_from_recipe(case["tree"])
     tree = G.build(spec, frozen_ok=True)
@@ -518,6 +540,14 @@ def execute(ctx, case):
         with warnings.catch_warnings():
             warnings.simplefilter("ignore")
             OPS[case["op"]](ctx, case, spec, tree)
+            plain = _plain_op(case)
+            if plain is not None and type(tree).__name__ == "Tree" and \
+                    len(spec["pid"]) % 3 == 0 and len(spec["pid"]) <= 400:
+                # the same tree held under custom column names (`names=`): the same result tree
+                r = G.same_under_renaming(plain, tree, level=len(spec["pid"]) // 3 % 2)
+                ctx.count("operations_under_custom_column_names")
+                if r:
+                    ctx.violation("custom-column-names", f"{case['op']}: {r}", case)
     except Exception as e:
         ctx.violation("op-raised", f"{case['op']}: {type(e).__name__}: {str(e)[:300]}", case)
 
